@@ -140,6 +140,29 @@ func (i *HItem) AfterSave(tx *gorm.DB) error {
 	return hookEvent(tx, "Item.AfterSave", &HRec{Name: i.Name})
 }
 
+// Children reached through Preload (C13: AfterFind once per loaded child).
+type HShelf struct {
+	ID    uint
+	Name  string
+	Books []HBook `gorm:"foreignKey:ShelfID"`
+}
+
+type HBook struct {
+	ID      uint
+	Name    string
+	ShelfID uint
+}
+
+type HBookmark struct {
+	ID     uint
+	BookID uint
+	Book   *HBook `gorm:"foreignKey:BookID"`
+}
+
+func (b *HBook) AfterFind(tx *gorm.DB) error {
+	return hookEvent(tx, "Book.AfterFind", &HRec{Name: b.Name})
+}
+
 // ---- models that define exactly one hook each (C13: hook detection must not
 // depend on another hook being defined too)
 
